@@ -17,13 +17,6 @@ the property theorems in `Props/C10.lean`.
 import CtyModel.Marks
 namespace CtyModel
 
-namespace Ty
-/-- `t == cty.DynamicPseudoType` -/
-def isDyn : Ty → Bool
-  | .dyn => true
-  | _ => false
-end Ty
-
 namespace Fn
 
 /-- `function.Parameter` (Name and Description play no role in the protocol). -/
@@ -148,16 +141,15 @@ inductive Pass1 where
 
 /-- One argument loop of `returnTypeForValues`, loop variable `i`.  Go writes the
 loop body twice (positional parameters, then the variadic tail); the two copies
-differ only in their index expressions.  With `off = 0` this is the positional
-loop.  The variadic loop is `off = len(posArgs)`: its null branch reports
-`realI = i + len(posArgs)`, but its conformance branch reports **`i`**
-(`NewArgError(i, errs[0])`, function.go l. 209) — transliterated as written. -/
+differ only in their index expressions: the positional loop reports `i`
+(`off = 0`), the variadic loop reports `realI = i + len(posArgs)`
+(`off = len(posArgs)`) in both of its error branches. -/
 def checkLoop : List Param → List Value → (i off : Nat) → Pass1
   | p :: ps, v :: vs, i, off =>
     match p.check v with
     | some .null => .argErr (i + off)
     | some .dynamic => .dyn
-    | some .nonconforming => .argErr i
+    | some .nonconforming => .argErr (i + off)
     | none =>
       match checkLoop ps vs (i + 1) off with
       | .ok rest => .ok (p.typeArg v :: rest)
